@@ -77,6 +77,11 @@ Definition range_len (a b s : Z) : Z :=
 Definition range_list (a b s : Z) : list Z :=
   map (fun k => (a + Z.of_nat k * s)%Z) (seq 0 (Z.to_nat (range_len a b s))).
 
+(* parameter constraint of a node: (strict, a, b) means a < b (strict) or a <= b *)
+Definition pcon := (bool * expr * expr)%type.
+Definition pcon_ok (en : env) (c : pcon) : bool :=
+  match c with (s, a, b) => if s then Qcltb (eval a en) (eval b en) else Qcleb (eval a en) (eval b en) end.
+
 (* ---- template trees ---------------------------------------------------------------------------------------------- *)
 Inductive pt :=
 | Atom (z : bool) (dur : expr) (ms : list decl)       (* atomic leaf; z: plays even with duration 0 (FunctionPT) *)
@@ -85,7 +90,9 @@ Inductive pt :=
 | Seq (ms : list decl) (subs : list pt)               (* SequencePT *)
 | Rep (ms : list decl) (count : expr) (body : pt)     (* RepetitionPT *)
 | For (ms : list decl) (idx : N) (start stop step : expr) (body : pt)   (* ForLoopPT *)
-| Map (pm : list (N * expr)) (mml : list (N * option N)) (body : pt)    (* MappingPT *)
+| Map (pm : list (N * expr)) (mml : list (N * option N)) (cs : list pcon) (body : pt)
+                                                      (* MappingPT: parameter mapping, measurement mapping,
+                                                         parameter constraints (checked in the OUTER scope) *)
 | Rev (body : pt)                                     (* TimeReversalPT *)
 | Single (body : pt)                                  (* body is listed in to_single_waveform *)
 | Pass (body : pt).                                   (* ParallelChannelPT / ArithmeticPT with a scalar *)
@@ -103,7 +110,7 @@ Fixpoint plays (p : pt) (en : env) : bool :=
   | Seq _ subs => existsb (fun s => plays s en) subs
   | Rep _ c b => (0 <? rep_count c en)%nat && plays b en
   | For _ i a b s body => existsb (fun v => plays body (upd en i (Zc v))) (range_vals a b s en)
-  | Map pm _ b => plays b (menv pm en)
+  | Map pm _ _ b => plays b (menv pm en)
   | Rev b => plays b en
   | Single b => plays b en
   | Pass b => plays b en
@@ -122,7 +129,7 @@ Fixpoint tdur (p : pt) (en : env) : Qc :=
   | Seq _ subs => sumc (map (fun s => tdur s en) subs)
   | Rep _ c b => natc (rep_count c en) * tdur b en
   | For _ i a b s body => sumc (map (fun v => tdur body (upd en i (Zc v))) (range_vals a b s en))
-  | Map pm _ b => tdur b (menv pm en)
+  | Map pm _ _ b => tdur b (menv pm en)
   | Rev b => tdur b en
   | Single b => tdur b en
   | Pass b => tdur b en
@@ -134,7 +141,7 @@ Fixpoint adecls (p : pt) (en : env) (mm : mmap) : list window :=
   | Atom _ _ ms => eval_decls ms en mm
   | Multi ms subs => eval_decls ms en mm ++ flat_map (fun s => adecls s en mm) subs
   | Arith ms l r => eval_decls ms en mm ++ adecls l en mm ++ adecls r en mm
-  | Map pm mml b => adecls b (menv pm en) (mcomp mml mm)
+  | Map pm mml _ b => adecls b (menv pm en) (mcomp mml mm)
   | _ => []
   end.
 
@@ -157,7 +164,7 @@ Fixpoint denote (p : pt) (en : env) (mm : mmap) : list window :=
            seq_windows 0 (map (fun v => let en' := upd en i (Zc v) in (tdur body en', denote body en' mm))
                               (range_vals a b s en))
       else []
-  | Map pm mml b => denote b (menv pm en) (mcomp mml mm)
+  | Map pm mml _ b => denote b (menv pm en) (mcomp mml mm)
   | Rev b => mirror (tdur b en) (denote b en mm)
   | Single b => denote b en mm
   | Pass b => denote b en mm
@@ -173,7 +180,7 @@ Fixpoint ainside (D : Qc) (p : pt) (en : env) : bool :=
   | Atom _ _ ms => decls_inside D ms en
   | Multi ms subs => decls_inside D ms en && forallb (fun s => ainside D s en) subs
   | Arith ms l r => decls_inside D ms en && ainside D l en && ainside D r en
-  | Map pm _ b => ainside D b (menv pm en)
+  | Map pm _ _ b => ainside D b (menv pm en)
   | _ => true
   end.
 
@@ -186,7 +193,7 @@ Fixpoint inside (p : pt) (en : env) : bool :=
   | Rep ms c b => decls_inside (tdur p en) ms en && inside b en
   | For ms i a b s body =>
       decls_inside (tdur p en) ms en && forallb (fun v => inside body (upd en i (Zc v))) (range_vals a b s en)
-  | Map pm _ b => inside b (menv pm en)
+  | Map pm _ _ b => inside b (menv pm en)
   | Rev b => inside b en
   | Single b => inside b en
   | Pass b => inside b en
@@ -200,7 +207,7 @@ Fixpoint is_atomic (p : pt) : bool :=
   | Atom _ _ _ => true
   | Multi _ subs => forallb is_atomic subs
   | Arith _ l r => is_atomic l && is_atomic r
-  | Map _ _ b => is_atomic b
+  | Map _ _ _ b => is_atomic b
   | _ => false
   end.
 (* all playing parts of an atomic composite have the same duration (otherwise the waveform constructor raises) *)
@@ -210,7 +217,7 @@ Fixpoint adur_ok (p : pt) (en : env) : bool :=
   | Multi _ subs => forallb (fun s => adur_ok s en && (negb (plays s en) || Qceqb (tdur s en) (tdur p en))) subs
   | Arith _ l r => adur_ok l en && adur_ok r en &&
                    (negb (plays l en) || negb (plays r en) || Qceqb (tdur l en) (tdur r en))
-  | Map pm _ b => adur_ok b (menv pm en)
+  | Map pm _ _ b => adur_ok b (menv pm en)
   | _ => false
   end.
 
@@ -225,8 +232,44 @@ Fixpoint must_accept (p : pt) (en : env) : bool :=
       forallb (decl_nonneg en) ms && is_int (eval a en) && is_int (eval b en) && is_int (eval s en)
       && negb (qfloor (eval s en) =? 0)%Z
       && forallb (fun v => must_accept body (upd en i (Zc v))) (range_vals a b s en)
-  | Map pm _ b => must_accept b (menv pm en)
+  | Map pm _ cs b => forallb (pcon_ok en) cs && must_accept b (menv pm en)
   | Rev b => must_accept b en
   | Single b => must_accept b en
   | Pass b => must_accept b en
   end.
+
+(* ---- which KIND of refusal is legitimate: the classes of all conditions violated anywhere in the tree -------------- *)
+Inductive eclass :=
+| EConstraint      (* ParameterConstraintViolation *)
+| ENotInt          (* ParameterNotIntegerException *)
+| EValue           (* ValueError: negative begin / length, non-integer range bound, step 0 *)
+| EOther           (* any other exception class *)
+| EAnyc.           (* specification side only: a violated condition for which every class is acceptable *)
+Definition eclass_eqb (a b : eclass) : bool :=
+  match a, b with
+  | EConstraint, EConstraint | ENotInt, ENotInt | EValue, EValue | EOther, EOther | EAnyc, EAnyc => true
+  | _, _ => false
+  end.
+Definition unless (b : bool) (c : eclass) : list eclass := if b then [] else [c].
+
+Fixpoint viol (p : pt) (en : env) : list eclass :=
+  match p with
+  | Atom _ d ms => unless (forallb (decl_nonneg en) ms) EValue ++ unless (Qcleb 0 (eval d en)) EAnyc
+  | Multi ms subs => unless (forallb (decl_nonneg en) ms) EValue ++ flat_map (fun s => viol s en) subs
+                     ++ unless (adur_ok p en) EAnyc
+  | Arith ms l r => unless (forallb (decl_nonneg en) ms) EValue ++ viol l en ++ viol r en ++ unless (adur_ok p en) EAnyc
+  | Seq ms subs => unless (forallb (decl_nonneg en) ms) EValue ++ flat_map (fun s => viol s en) subs
+  | Rep ms c b => unless (forallb (decl_nonneg en) ms) EValue ++ unless (is_int (eval c en)) ENotInt ++ viol b en
+  | For ms i a b s body =>
+      unless (forallb (decl_nonneg en) ms) EValue
+      ++ unless (is_int (eval a en) && is_int (eval b en) && is_int (eval s en)) EValue
+      ++ unless (negb (qfloor (eval s en) =? 0)%Z) EValue
+      ++ flat_map (fun v => viol body (upd en i (Zc v))) (range_vals a b s en)
+  | Map pm _ cs b => unless (forallb (pcon_ok en) cs) EConstraint ++ viol b (menv pm en)
+  | Rev b => viol b en
+  | Single b => viol b en
+  | Pass b => viol b en
+  end.
+(* a refusal of class c is legitimate iff some violated condition has that class (or admits any class) *)
+Definition may_reject (c : eclass) (p : pt) (en : env) : bool :=
+  existsb (fun v => eclass_eqb v c || eclass_eqb v EAnyc) (viol p en).
